@@ -41,6 +41,8 @@ Inductive query :=
 | QClosest (F : path) (n : string) (ans : option fdef)
 | QResolveForFile (F : path) (n : string) (ans : option fdef)
 | QIsAvailable (F : path) (n : string) (ans : bool)
+| QGotoOrDef (F : path) (line col : N) (ans : option fdef)
+| QNameAt (F : path) (line col : N) (ans : option string)
 | QDump (d : dump).
 
 Inductive step := Op (o : wop) | Ask (q : query).
@@ -95,6 +97,8 @@ Section Verdict.
     | QClosest F n ans => opt_def_eqb (closest dk roots s F n) ans
     | QResolveForFile F n ans => opt_def_eqb (resolve_for_file s F n) ans
     | QIsAvailable F n ans => Bool.eqb (is_available s F n) ans
+    | QGotoOrDef F l c ans => opt_def_eqb (goto_or_def dk roots s F l c) ans
+    | QNameAt F l c ans => opt_eqb String.eqb (name_at dk s F l c) ans
     | QDump d => dump_ok s d
     end.
 End Verdict.
